@@ -16,14 +16,14 @@ use std::collections::BTreeMap;
 use std::sync::Arc;
 
 #[derive(Clone, Copy, PartialEq, Eq, Debug)]
-enum Kind {
+pub(crate) enum Kind {
     Identity,
     Rc4,
     Aes128,
     Aes256,
 }
 
-fn mk(kind: Kind) -> Arc<dyn CryptFilter> {
+pub(crate) fn mk(kind: Kind) -> Arc<dyn CryptFilter> {
     match kind {
         Kind::Identity => Arc::new(IdentityCryptFilter),
         Kind::Rc4 => Arc::new(Rc4CryptFilter),
@@ -33,8 +33,13 @@ fn mk(kind: Kind) -> Arc<dyn CryptFilter> {
 }
 
 fn draw_password(ctx: &Ctx, label: &'static str) -> String {
-    match ctx.draw(W, 7, label) {
+    match ctx.draw(W, 10, label) {
         0 => String::new(),
+        // longer than 127 bytes and not ASCII: the 127-byte cut of revisions 5/6 falls inside a
+        // character (7, 9) or between two characters (8)
+        7 => "\u{e9}".repeat(70),
+        8 => format!("a{}", "\u{434}".repeat(70)),
+        9 => "\u{5bc6}".repeat(45),
         1 => "user".to_string(),
         2 => "pass word(1)\\".to_string(),
         3 => "пароль-密码-ß".to_string(),
